@@ -112,24 +112,132 @@ class _Jitter:
 
 
 def _inst_body(case, impl_out):
-    """observables of one consensus instance for the Lean judge"""
+    """observables of one consensus instance for the Lean judge: values proposed, every node's report after every
+    step, resolved futures, and the messages seen on the network: `aprop p b v` (Accept(b, v) sent by p),
+    `vote d b v` (d answered Accept(b, v) with Accepted), `prm f b -|bm:vm` (f answered Prepare(b) with a Promise
+    reporting bm:vm); ballots as naturals number * n + node"""
+    n = case["n"]
+
+    def nb(t):
+        a, b = t.split(".")
+        return int(a) * n + int(b)
+
     body = []
+    act = None
+    sent = {}                      # (ballot, destination) -> value of the last Accept sent
+    props = set()
+    last = {}                      # node -> its last report
+    call = None                    # the propose() call of the current step: [node, report before, future id, resolved with]
+    nfut = 0
+
+    def flush():
+        if call is not None:
+            body.append(f"pcall {call[0]} {call[1]} {call[3]}")
+
     for l in impl_out:
         t = l.split()
-        if t[0] == "step" and t[2] == "propose":
-            body.append(f"proposed {t[4]}")
+        if t[0] in ("step", "final") and call is not None:
+            flush()
+            call = None
+        if t[0] == "step":
+            act = t[2:]
+            if act[0] == "propose":
+                body.append(f"proposed {act[2]}")
+                call = [act[1], last.get(act[1], "-"), nfut, "-"]
+                nfut += 1
         elif t[0] == "node":
             body.append(f"rep {t[1]} {t[9]}")
+            last[t[1]] = t[9]
         elif t[0] == "final":
             body.append(f"rep {t[1]} {t[2]}")
         elif t[0] == "fut":
             body.append(f"fut {t[1]} {t[2]}")
+            if call is not None and int(t[1]) == call[2]:
+                call[3] = t[2]
+        elif t[0] == "send" and act is not None:
+            if t[1] == "Accept":
+                if (t[3], t[4]) not in props:
+                    props.add((t[3], t[4]))
+                    body.append(f"aprop {t[3].split('.')[1]} {nb(t[3])} {t[4]}")
+                sent[(t[3], t[2])] = t[4]
+            elif t[1] == "Accepted" and act[0] == "accept" and (act[1], act[2]) in sent:
+                body.append(f"vote {act[2]} {nb(act[1])} {sent[(act[1], act[2])]}")
+            elif t[1] == "Promise" and act[0] == "prepare":
+                rep = "-"
+                if t[4] != "-":
+                    ab, av = t[4].split(":")
+                    rep = f"{nb(ab)}:{av}"
+                body.append(f"prm {act[2]} {nb(act[1])} {rep}")
     return body
 
 
 def _v(x):
-    """values cross as naturals; None (never a proposed value) is 0"""
+    """legacy cases (no value palette): values cross as naturals; None is 0"""
     return 0 if x is None else int(x)
+
+
+# Value palette.  A case that has a `vals` list proposes arbitrary Python objects: `vals[k]` is a Python
+# expression (evaluated with `_val`), an op refers to its value by the index k, the implementation run gets
+# the real object, and every value the implementation shows (decided_value, future results, message payloads,
+# log entries) crosses to the model / judge as a *code*: 0 for None, 1 + k for the first palette entry of the
+# same type and the same repr, FOREIGN for anything else.  `1`, `True` and `1.0` (equal, same hash) therefore
+# have three different codes, and so have `0`, `False`, `0.0`, `''`, `()`, `[]` (all falsy).
+FOREIGN = 999
+FALSY = ["0", "''", "False", "0.0", "()", "[]", "{}", "b''", "None", "frozenset()", "0j", "range(0)"]
+EQUAL_DISTINCT = ["1", "True", "1.0", "(1+0j)"]
+TRUTHY = ["'x'", "70", "71", "-1", "'0'", "'None'", "'False'", "(0,)", "[0]", "[None]", "{'k': 0}", "2", "' '", "[[]]"]
+PALETTE = FALSY + EQUAL_DISTINCT + TRUTHY
+_VAL_NS = {"frozenset": frozenset, "range": range}
+
+
+def _val(expr):
+    """a fresh object for a palette expression"""
+    return eval(expr, {"__builtins__": {}}, dict(_VAL_NS))
+
+
+def _same(a, b):
+    return type(a) is type(b) and repr(a) == repr(b)
+
+
+def _coder(vals, none_code=0):
+    """object -> code for one case (`vals` = the case's palette expressions, or None for a legacy case)"""
+    if vals is None:
+        return _v
+    table = {}
+    for k, e in enumerate(vals):
+        o = _val(e)
+        table.setdefault((type(o), repr(o)), 1 + k)
+
+    def code(x):
+        if x is None and none_code is not None:
+            return none_code
+        return table.get((type(x), repr(x)), FOREIGN)
+
+    return code
+
+
+def _pick_vals(rng, k):
+    """k distinct palette expressions (no two of the same type and repr): the earliest proposals are mostly
+    falsy, equal-but-distinct groups (0/False/0.0, 1/True/1.0) tend to appear together"""
+    r = rng.random()
+    if r < 0.15:
+        pool = list(EQUAL_DISTINCT) + ["0", "False", "0.0"]
+        rng.shuffle(pool)
+        out = pool[:k]
+    else:
+        out = []
+        for j in range(k):
+            src = FALSY if rng.random() < (0.75 if j == 0 else 0.4) else (EQUAL_DISTINCT + TRUTHY)
+            for _ in range(20):
+                e = rng.choice(src)
+                if e not in out:
+                    out.append(e)
+                    break
+    while len(out) < k:
+        e = rng.choice(PALETTE)
+        if e not in out:
+            out.append(e)
+    return out
 
 
 # ------------------------------------------------------------------------------------ the property
@@ -148,15 +256,19 @@ class C12(core.Property):
     case_timeout_s = 30
     rule = ("families: paxos (3-5 real PaxosNodes in the real engine + Network, 1-4 proposals incl. several on one node, "
             "per-message latencies from small pools with late/never-delivered outliers, optional partition window, retry delay and "
-            "jitter draws generated; non-trivial = some Accept was sent); mpaxos / fpaxos (MultiPaxosNode / FlexiblePaxosNode, 2-8 "
+            "jitter draws generated; proposed values drawn from the falsy / equal-but-distinct / truthy palette, the first proposal falsy in 75 % of the cases; "
+            "hand-off scenario 10 %: a proposer gets its value accepted by a quorum (or one less / more) while the others are cut off, then it is cut off "
+            "(or its Decided messages are lost) and a node that saw nothing proposes another value, optionally a third; non-trivial = some Accept was sent); "
+            "mpaxos / fpaxos commands: 70 % from the palette, as the value of a KV set command or as the raw command applied by an echo StateMachine; mpaxos / fpaxos (MultiPaxosNode / FlexiblePaxosNode, 2-8 "
             "start/submit calls on random nodes; fpaxos: (q1,q2) with q1+q2>n, mostly asymmetric in both directions and tight (q1+q2=n+1), n 3-5, "
             "half of the cases the take-over scenario: a leader cut off with exactly q1 (or q1+-1, q2-1, q2) nodes on its side runs phase 1 and proposes "
             "inside the partition, heal, a node of the other side takes over with another command for the same slot); slow-prepare take-over (mpaxos 70% / fpaxos: "
             "the new leader's link to the old leader is 4-45x slower than the others, commands submitted to the old leader from 2 ms before to `slow` ms after the instant it "
             "promises and to the new leader around the instant it leads, optional later start() rounds); election (LeaderElection x Bully/Ring/Randomized, "
             "uniform member views; join scenario: a node unknown to the group (mostly the highest id) knows everybody, runs its first election late, add_member around that "
-            "instant, one directed link out of the old leader 60-350 ms slow against heartbeats every 10-60 ms); lock (4-60 acquire/try/release/expire calls on 1-3 locks, "
-            "tokens at/around the live token, max_waiters 0-2; non-trivial = >= 2 grants). distinct = distinct case content")
+            "instant, one directed link out of the old leader 60-350 ms slow against heartbeats every 10-60 ms); lock (4-60 acquire/try/release/expire calls and LockAcquireRequest/LockReleaseRequest events on 1-3 locks, "
+            "tokens at/around the live token of the lock (a mirror of the manager runs in the generator), 35 % of them spelled as an equal-but-distinct or falsy object, "
+            "max_waiters 0-2; non-trivial = >= 2 grants). distinct = distinct case content")
     trusted_base = [
         "hv/props/c12.py adapters: per-node handle_event wrappers that record delivered events, returned messages and node state",
         "private attributes read for the lock-step comparison only: PaxosNode._promised_ballot/_accepted_ballot/_accepted_value/_current_ballot, "
@@ -168,7 +280,15 @@ class C12(core.Property):
     ]
     assumptions = [
         "'a proposer's future resolves with the decided value' is judged as safety: a resolved future carries the decided value (a future that never resolves, e.g. when the node learns the decision through PaxosDecided, is not judged)",
-        "None as a decided value is printed as 0; generated values are >= 1",
+        "values are arbitrary Python objects from a palette (falsy: 0, '', False, 0.0, (), [], {}, b'', None, frozenset(), 0j, range(0); equal but distinct: 1, True, 1.0, (1+0j); "
+        "truthy: strings, ints, containers holding falsy things); they cross to the model / judge as codes: 0 = None, 1 + k = k-th palette entry of the case, compared by type and repr "
+        "(so 0, False and 0.0 are three values), 999 = an object that is none of them.  Two objects of the same type and repr count as the same value",
+        "phase-1 report rule (paxos/promise/hides-accepted-value, …/reports-value-never-accepted): from the messages on the network — a node that answered Accept(b', v) with Accepted and later "
+        "answers Prepare(b), b' < b, with a Promise reports an accepted ballot >= b' (not 'nothing'); a reported (ballot, value) was sent in an Accept by the ballot's owner or acknowledged by "
+        "the promising node.  The proposer's promise to itself is not a message and is not judged (its effect is, through agreement)",
+        "paxos/future/unresolved-on-decided-node: propose() on a node whose is_decided was true after its previous step returns a future that is already resolved with that decided value",
+        "lock tokens: release / expire / LockReleaseRequest are also called with True, 1.0, (1+0j), 2.0 … (equal to a token under ==, so they release), and with False, 0.0, None, '', '1', 1.5, -1, (), [1] "
+        "(equal to no token); requester 0 and lock 0 are the empty string in 60 % of the cases (DistributedLock.get_fencing_token reports None for a lock held by '' — modelled as is, not part of the fencing clause)",
         "Multi-Paxos 'reported decision' of a node for a slot = its committed log entry (public node.log), after every delivered event",
         "message loss / partitions are schedules in which a sent message is never delivered",
         "commit rule (mpaxos|fpaxos/commit/without-phase2-quorum): judged in the acknowledgement form — when an Accepted delivery raises the receiver's "
@@ -192,12 +312,15 @@ class C12(core.Property):
         "unchanged term only on a heartbeat stamped with at least that term (election/leader/changed-within-term-without-heartbeat). Two nodes claiming one term number "
         "(per-node term counters) stays with election/one-leader-per-term/two-leaders when member views differ or change (add_member) during the run; with one member set "
         "given to every node and no add_member the signature is election/one-leader-per-term/two-leaders-with-identical-static-views (not a known finding: every strategy of "
-        "the pinned tree then only ever announces max(members); 0 occurrences in 20 000 generated uniform schedules; not machine-proved)",
+        "the pinned tree then only ever announces max(members) — theorem El.election_one_leader_per_term_static for the message-soup model of the three strategies)",
     ]
     hypotheses = ["flexible_quorums_intersect: n < q1 + q2, quorums are duplicate-free lists of node indices < n",
                   "flexible_paxos_agreement: n < q1 + q2 and 0 < q2 (FlexiblePaxosNode enforces q1 + q2 > n; q2 = 0 would make every decision vacuous)",
                   "paxos_validity: 0 < q2",
-                  "MP.deposed_leader_never_assigns / MP.deposed_judge_silent: every action's node index is < n (the harness has nodes 0..n-1 only)"]
+                  "MP.deposed_leader_never_assigns / MP.deposed_judge_silent: every action's node index is < n (the harness has nodes 0..n-1 only)",
+                  "El.election_one_leader_per_term_static / El.static_views_leader_is_highest: UniformViews n views — n nodes, each given a duplicate-free member list of exactly 0..n-1 "
+                  "(any insertion order); no add_member during the run; a Victory / LeaderHeartbeat / Token is delivered only if it was sent (El.enabled)",
+                  "promise_judge_silent: lo is a subset and hi a superset of the votes of the run, proms a subset of its promises"]
     partial_theorems = {
         "slot_agreement": "Multi-Paxos / Flexible-Paxos slot agreement is REFUTED for the pinned tree (slot_agreement_current_false, "
                           "flexible_slot_agreement_current_false, slot_agreement_full_current_false); no repaired Multi-Paxos variant is modelled: "
@@ -205,8 +328,10 @@ class C12(core.Property):
         "commit_needs_phase2_quorum (distinct-acceptor form)": "the distinct-acceptor reading (>= q2 different nodes accepted (ballot, slot, value) at a leader commit) is "
                                                                "REFUTED for the pinned tree (commit_distinct_quorum_current_false: duplicate Accepted messages of one acceptor are "
                                                                "counted); proved and judged is the acknowledgement form (commit_needs_phase2_quorum), which the distinct form implies",
-        "election_one_leader_per_term": "REFUTED in general (election_two_leaders_one_term: a joining node reuses a term); for identical static member views "
-                                        "the clause held on every generated schedule but is not machine-proved (needs a message-soup model of the three strategies)",
+        "election_one_leader_per_term": "REFUTED in general (election_two_leaders_one_term: a joining node reuses a term). PROVED for identical static member views "
+                                        "(El.election_one_leader_per_term_static, El.static_views_leader_is_highest) in the message-soup system El.Sys of HappyModel/C12/ElSoup.lean: "
+                                        "Victory / LeaderHeartbeat / Token deliveries need a sent message (kept forever: duplication, reordering, loss), timers, challenges, suppressions and "
+                                        "ballots are unconstrained, no add_member.  Trusted link: the engine delivers only payloads that were sent (the per-step replay compares every sent payload)",
         "single_proposer_decides (liveness)": "not stated: bounded-progress form needs an engine-time model; the fault-free single-proposer schedules in the paxos family all decide (checked by the judge only for safety)",
         "paxos current variant": "stepCur is exact on the two corpus witnesses but approximates duplicate Accept/Accepted messages of the pinned tree (at-most-once slots)",
     }
@@ -219,14 +344,24 @@ class C12(core.Property):
         if i % 20 == 18:
             return self.gen_election_join(rng, tier)
         if k == 6:
-            return self.gen_takeover_slow_prepare(rng, tier)
+            return self._with_cmd_palette(rng, self.gen_takeover_slow_prepare(rng, tier))
         if k == 1:
-            return self.gen_mpaxos(rng, tier)
+            return self._with_cmd_palette(rng, self.gen_mpaxos(rng, tier))
         if k == 3:
-            return self.gen_fpaxos(rng, tier)
+            return self._with_cmd_palette(rng, self.gen_fpaxos(rng, tier))
         if k == 8:
             return self.gen_election(rng, tier, uniform=True)
+        if k == 7:
+            return self.gen_paxos_handoff(rng, tier)
         return self.gen_paxos(rng, tier)
+
+    def _with_cmd_palette(self, rng, case):
+        """Multi-Paxos / Flexible Paxos commands from the value palette (70 % of the cases)"""
+        ncmd = max([o.get("cmd", 0) for o in case["ops"]] + [0])
+        if ncmd and rng.random() < 0.7:
+            case["cvals"] = _pick_vals(rng, ncmd)
+            case["sm"] = rng.choice(["kv", "echo", "echo"])
+        return case
 
     def run_impl(self, case):
         key = json.dumps(case, sort_keys=True)
@@ -265,7 +400,7 @@ class C12(core.Property):
         t = 0
         for k in range(nprop):
             t += rng.choice([0, 0, 1, 2, 5, 20, 400]) * 1_000_000
-            ops.append({"t": t, "op": "propose", "node": rng.randrange(n), "val": 70 + k})
+            ops.append({"t": t, "op": "propose", "node": rng.randrange(n), "val": k})
         if rng.random() < 0.3:
             # a partition window: minority / majority split, healed later
             side = rng.sample(range(n), rng.randint(1, n - 1))
@@ -277,7 +412,66 @@ class C12(core.Property):
         lat = [rng.choice(pool) * 1_000_000 for _ in range(rng.choice([7, 13, 31, 64]))]
         jit = [rng.choice([0.0, 0.25, 0.5, 0.999]) for _ in range(5)]
         return {"family": "paxos", "n": n, "ops": ops, "lat": lat, "jit": jit,
-                "retry_ms": rng.choice([1, 3, 10, 500])}
+                "retry_ms": rng.choice([1, 3, 10, 500]), "vals": _pick_vals(rng, nprop)}
+
+    def gen_paxos_handoff(self, rng, tier):
+        """sequential proposers: proposer A gets its value accepted by a set S of acceptors (a quorum, a quorum
+        minus one, or A alone with one more) while the other nodes are cut off or slow; then A (sometimes with
+        part of S) is cut off, or its Decided / Accepted messages are lost, and a node B that has seen nothing
+        proposes another value: the only trace of the first value B's phase 1 can meet is the accepted state
+        reported in the promises of S.  Optionally a third proposer follows in the same way."""
+        ms = 1_000_000
+        n = rng.choice([3, 3, 4, 5, 5])
+        q = n // 2 + 1
+        order = list(range(n))
+        rng.shuffle(order)
+        a = order[0]
+        size = rng.choice([q, q, q, q - 1, q + 1])
+        size = max(1, min(n - 1, size))
+        side = sorted(order[:size])                       # A's side during the first round
+        rest = [i for i in range(n) if i not in side]
+        nprop = rng.choice([2, 2, 2, 3])
+        vals = _pick_vals(rng, nprop)
+        ops, latmap = [], {}
+        t = rng.choice([0, 1, 100]) * ms
+        lose = rng.random() < 0.35                        # no partition: the first round's Decided messages get lost instead
+        if not lose:
+            ops.append({"t": t, "op": "partition", "a": side})
+        ops.append({"t": t, "op": "propose", "node": a, "val": 0})
+        t += rng.choice([3, 4, 5, 6, 8, 20, 900]) * ms    # before / at / after the instant A decides (4 ms at 1 ms links)
+        b = rng.choice(rest)
+        if lose:
+            for d in range(n):
+                if d != a and (d == b or rng.random() < 0.7):
+                    latmap[f"Decided:{a}:{d}:-:{0 if vals[0] == 'None' else 1}"] = 100_000 * ms
+            if rng.random() < 0.5:
+                for d in rest:
+                    latmap[f"Prepare:{a}:{d}:1"] = rng.choice([2, 5, 100_000]) * ms
+        else:
+            ops.append({"t": t, "op": "heal"})
+            # the second partition: A away, alone or with part of its side; B keeps a quorum whenever it can
+            away = [a] + [i for i in side if i != a and rng.random() < 0.3]
+            if n - len(away) < q and rng.random() < 0.8:
+                away = [a]
+            if rng.random() < 0.85:
+                ops.append({"t": t, "op": "partition", "a": sorted(away)})
+            t += rng.choice([0, 1, 100]) * ms
+        ops.append({"t": t, "op": "propose", "node": b, "val": 1})
+        if nprop == 3:
+            t += rng.choice([2, 3, 5, 8, 50, 900]) * ms
+            c = rng.choice([i for i in range(n) if i != b])
+            if not lose and rng.random() < 0.5:
+                ops.append({"t": t, "op": "heal"})
+                if rng.random() < 0.6:
+                    ops.append({"t": t, "op": "partition", "a": [b]})
+            ops.append({"t": t, "op": "propose", "node": c, "val": 2})
+        pool = rng.choice([[1], [1], [1, 2], [1, 1, 1, 3]])
+        lat = [rng.choice(pool) * ms for _ in range(rng.choice([1, 7, 13]))]
+        case = {"family": "paxos", "n": n, "ops": ops, "lat": lat, "jit": [rng.choice([0.0, 0.5, 0.999]) for _ in range(3)],
+                "retry_ms": rng.choice([3, 10, 500]), "vals": vals}
+        if latmap:
+            case["latmap"] = latmap
+        return case
 
     def impl_paxos(self, case):
         import happysimulator.components.consensus.paxos as px
@@ -287,6 +481,8 @@ class C12(core.Property):
         n = case["n"]
         names = [f"n{i}" for i in range(n)]
         idx = {nm: i for i, nm in enumerate(names)}
+        vals = case.get("vals")
+        _v = _coder(vals)                 # value -> code (legacy cases: the integer itself)
 
         def key(ev):
             m = ev.context.get("metadata", {})
@@ -400,10 +596,11 @@ class C12(core.Property):
                         return None
                     if op["op"] == "propose":
                         nd = nodes[op["node"]]
-                        f = nd.propose(op["val"])
+                        obj = op["val"] if vals is None else _val(vals[op["val"]])
+                        f = nd.propose(obj)
                         futs.append([op["node"], f, False])
                         evs = [] if f.is_resolved else nd.start_phase1()
-                        record(op["node"], f"propose {op['node']} {op['val']}", evs)
+                        record(op["node"], f"propose {op['node']} {_v(obj)}", evs)
                         return evs
                     if op["op"] == "partition":
                         a = [nodes[i] for i in op["a"]]
@@ -626,12 +823,35 @@ class C12(core.Property):
 
         net, Chosen, NetworkLink, _ = _mk_network(case, names, key)
         hb = case.get("hb_ms", 1000) / 1000.0
+        # command palette: `cvals[c - 1]` is the Python expression of command number c; `sm` = "kv" (the command is
+        # {"op": "set", "key": "k", "value": <object>} for the default KVStateMachine) or "echo" (the command is the
+        # object itself, applied by a harness StateMachine that returns it).  Commands cross as their number.
+        cvals = case.get("cvals")
+        echo = cvals is not None and case.get("sm") == "echo"
+        ccode = _coder(cvals, none_code=None)
+
+        class Echo:
+            """StateMachine protocol: apply returns the command"""
+
+            def __init__(self):
+                self.applied = []
+
+            def apply(self, command):
+                self.applied.append(command)
+                return command
+
+            def snapshot(self):
+                return list(self.applied)
+
+            def restore(self, snapshot):
+                self.applied = list(snapshot)
+
         if flex:
             nodes = [FlexiblePaxosNode(nm, net, phase1_quorum=case["q1"], phase2_quorum=case["q2"],
-                                       heartbeat_interval=hb) for nm in names]
+                                       heartbeat_interval=hb, **({"state_machine": Echo()} if echo else {})) for nm in names]
             # the constructor checks q1 + q2 > N against the peer list it is given (none yet)
         else:
-            nodes = [MultiPaxosNode(nm, net, heartbeat_interval=hb) for nm in names]
+            nodes = [MultiPaxosNode(nm, net, heartbeat_interval=hb, **({"state_machine": Echo()} if echo else {})) for nm in names]
         for nd in nodes:
             nd.set_peers(nodes)
         _mesh(net, Chosen, NetworkLink, nodes)
@@ -641,7 +861,21 @@ class C12(core.Property):
             return f"{num}.{idx.get(node, 0)}"
 
         def cmdv(c):
-            return int(c["value"]) if isinstance(c, dict) else _v(c)
+            if cvals is None:
+                return int(c["value"]) if isinstance(c, dict) else _v(c)
+            if echo:
+                return ccode(c)
+            return ccode(c["value"]) if isinstance(c, dict) and set(c) == {"op", "key", "value"} else FOREIGN
+
+        def resv(r):
+            """result a future resolved with: KVStateMachine returns the value set, Echo the command"""
+            return _v(r) if cvals is None else ccode(r)
+
+        def mkcmd(c):
+            if cvals is None:
+                return {"op": "set", "key": "k", "value": c}
+            obj = _val(cvals[c - 1])
+            return obj if echo else {"op": "set", "key": "k", "value": obj}
 
         def logs(entries):
             return ",".join(f"{e['term']}:{cmdv(e['command'])}" for e in entries) or "-"
@@ -687,7 +921,7 @@ class C12(core.Property):
                 if not f[2] and f[1].is_resolved:
                     f[2] = True
                     v = f[1].value
-                    res.append(f"  fut {k} {v[0]} {_v(v[1])}")
+                    res.append(f"  fut {k} {v[0]} {resv(v[1])}")
             return res
 
         def record(i, action, evs):
@@ -742,7 +976,7 @@ class C12(core.Property):
                     record(op["node"], f"start {op['node']}", evs)
                     return evs
                 if op["op"] == "submit":
-                    f = nodes[op["node"]].submit({"op": "set", "key": "k", "value": op["cmd"]})
+                    f = nodes[op["node"]].submit(mkcmd(op["cmd"]))
                     futs.append([op["node"], f, False, op["cmd"]])
                     record(op["node"], f"submit {op['node']} {op['cmd']}", [])
                     return None
@@ -1093,6 +1327,20 @@ class C12(core.Property):
         act = None
         for l in impl_out:
             t = l.split()
+            # hypothesis of El.election_one_leader_per_term_static, checked on every run: a Victory / LeaderHeartbeat /
+            # Token that is delivered was sent before (`snt` / `dlv` lines, judged first)
+            if t[0] == "step" and t[2] == "victory":
+                body.append(f"dlv V {t[3]} {t[4]}")
+            elif t[0] == "step" and t[2] == "lhb":
+                body.append(f"dlv H {t[3]} {t[4]} {t[5]}")
+            elif t[0] == "step" and t[2] == "token":
+                body.append(f"dlv T {t[3]} {t[4]} {t[5]} {t[6]}")
+            elif t[0] == "send" and t[1] == "Victory":
+                body.append(f"snt V {t[2]} {t[3]}")
+            elif t[0] == "send" and t[1] == "LHB":
+                body.append(f"snt H {t[2]} {t[3]} {t[4]}")
+            elif t[0] == "send" and t[1] == "Token":
+                body.append(f"snt T {t[2]} {t[3]} {t[4]} {t[5]}")
             if t[0] == "step":
                 act = t[2:]
             elif t[0] == "node":
@@ -1114,47 +1362,117 @@ class C12(core.Property):
         nr = rng.choice([2, 3, 4])
         ln = rng.choice([4, 8, 16, 30, 60])
         maxw = rng.choice([0, 0, 1, 2])
+        odd = rng.random() < 0.6      # tokens from the value palette, '' as a requester / lock name, request events
         ops = []
-        tokens = [0]          # tokens that may have been granted so far (upper bound: one per op)
+        # a mirror of the manager (holder, token, waiters per lock) so that release / expire mostly name the live token
+        st = {l: [None, 0, []] for l in range(nl)}
+        nxt = [1]
+
+        def grant(l, r):
+            st[l][0], st[l][1] = r, nxt[0]
+            nxt[0] += 1
+
+        def free(l):
+            st[l][0] = None
+            if st[l][2]:
+                grant(l, st[l][2].pop(0))
+
         for k in range(ln):
             l, r = rng.randrange(nl), rng.randrange(nr)
             x = rng.random()
-            hi = max(tokens)
-            if x < 0.4:
-                ops.append(["acquire", l, r]); tokens.append(hi + 1)
-            elif x < 0.5:
-                ops.append(["try", l, r]); tokens.append(hi + 1)
-            elif x < 0.8:
-                ops.append(["release", l, rng.choice([rng.randint(0, hi + 1), hi, max(0, hi - 1)])]); tokens.append(hi + 1)
+            live = st[l][1]
+            tok = rng.choice([live, live, live, live + 1, max(0, live - 1), rng.randint(0, nxt[0]), nxt[0] - 1])
+            if odd and rng.random() < 0.35:
+                # equal-but-distinct spellings of a token (True == 1 == 1.0), falsy and None-like tokens
+                tok = rng.choice([f"{tok}.0", f"{tok}.0", f"({tok}+0j)", "True", "1.0", "False", "0.0", "None", "''", f"'{tok}'",
+                                  f"{tok}.5", f"-{tok}", "()", f"[{tok}]"])
+            if x < 0.5:
+                kind = "try" if x >= 0.4 else ("acqreq" if odd and rng.random() < 0.25 else "acquire")
+                ops.append([kind, l, r])
+                if st[l][0] is None:
+                    grant(l, r)
+                elif st[l][0] != r and kind != "try" and not (maxw > 0 and len(st[l][2]) >= maxw):
+                    st[l][2].append(r)
             else:
-                ops.append(["expire", l, rng.choice([rng.randint(0, hi + 1), hi, max(0, hi - 1)])]); tokens.append(hi + 1)
-        return {"family": "lock", "max_waiters": maxw, "ops": ops}
+                kind = ("relreq" if odd and rng.random() < 0.3 else "release") if x < 0.8 else "expire"
+                ops.append([kind, l, tok])
+                if st[l][0] is not None and self._tok(_val(tok) if isinstance(tok, str) else tok) == live:
+                    free(l)
+        case = {"family": "lock", "max_waiters": maxw, "ops": ops}
+        if odd:
+            case["falsy_names"] = True       # requester 0 is '' and lock 0 is ''
+        return case
+
+    NOMATCH = 10 ** 9
+
+    @classmethod
+    def _tok(cls, x):
+        """the natural a token argument is equal to under Python's `==` (True == 1 == 1.0 == (1+0j)), or NOMATCH
+        (no fencing token — a positive int — is equal to it)"""
+        try:
+            if isinstance(x, (bool, int, float, complex)) and x == x:
+                if isinstance(x, complex):
+                    if x.imag != 0:
+                        return cls.NOMATCH
+                    x = x.real
+                if x >= 0 and x == int(x) and int(x) < cls.NOMATCH:
+                    return int(x)
+        except (OverflowError, ValueError):
+            pass
+        return cls.NOMATCH
 
     def impl_lock(self, case):
         from happysimulator.components.consensus.distributed_lock import DistributedLock
         from happysimulator.core.event import Event
+        from happysimulator.core.sim_future import SimFuture
 
         lk = DistributedLock("lock", lease_duration=10.0, max_waiters=case["max_waiters"])
+        falsy = bool(case.get("falsy_names"))
+
+        def rname(x):
+            return "" if falsy and x == 0 else f"r{x}"
+
+        def lname(l):
+            return "" if falsy and l == 0 else f"L{l}"
+
+        def ridx(h):
+            return 0 if h == "" else int(h[1:])
+
         out = []
         waiting = []  # (lock, requester, future)
         for k, op in enumerate(case["ops"]):
             kind, l, x = op
-            name = f"L{l}"
-            if kind == "acquire":
-                f = lk.acquire(name, f"r{x}")
+            name = lname(l)
+            shown = x
+            if kind in ("release", "relreq", "expire"):
+                tok = _val(x) if isinstance(x, str) else x
+                shown = self._tok(tok)
+            if kind in ("acquire", "acqreq"):
+                if kind == "acquire":
+                    f = lk.acquire(name, rname(x))
+                else:
+                    f = SimFuture()
+                    lk.handle_event(Event(time=_instant(0), event_type="LockAcquireRequest", target=lk,
+                                          context={"metadata": {"lock_name": name, "requester": rname(x)}, "reply_future": f}))
                 if f.is_resolved:
                     res = "rejected" if f.value is None else f"grant {f.value.fencing_token}"
+                    if f.value is not None and (f.value.holder != rname(x) or f.value.lock_name != name):
+                        res += " WRONG-HOLDER"
                 else:
                     res = "queued"
                     waiting.append((l, x, f))
             elif kind == "try":
-                g = lk.try_acquire(name, f"r{x}")
+                g = lk.try_acquire(name, rname(x))
                 res = "none" if g is None else f"grant {g.fencing_token}"
             elif kind == "release":
-                res = "true" if lk.release(name, x) else "false"
+                res = "true" if lk.release(name, tok) else "false"
+            elif kind == "relreq":
+                lk.handle_event(Event(time=_instant(0), event_type="LockReleaseRequest", target=lk,
+                                      context={"metadata": {"lock_name": name, "fencing_token": tok}}))
+                res = "-"
             else:
                 lk.handle_event(Event(time=_instant(0), event_type="LockLeaseExpiry", target=lk,
-                                      context={"metadata": {"lock_name": name, "fencing_token": x}}))
+                                      context={"metadata": {"lock_name": name, "fencing_token": tok}}))
                 res = "-"
             wake = ""
             for w in list(waiting):
@@ -1162,16 +1480,23 @@ class C12(core.Property):
                     waiting.remove(w)
                     g = w[2].value
                     wake += f" wake {w[1]} {g.fencing_token}"
-                    if g.holder != f"r{w[1]}" or g.lock_name != f"L{w[0]}":
+                    if g.holder != rname(w[1]) or g.lock_name != lname(w[0]):
                         wake += " WRONG-HOLDER"
             h = lk.get_holder(name)
-            hold = "- -" if h is None else f"{h[1:]} {lk.get_fencing_token(name)}"
+            ft = lk.get_fencing_token(name)
+            hold = "- -" if h is None else f"{ridx(h)} {'-' if ft is None else ft}"
             nw = sum(1 for w in waiting if w[0] == l)
-            out.append(f"op {k} {kind} {l} {x} -> {res}{wake} | holder {hold} waiters {nw}")
+            out.append(f"op {k} {kind} {l} {shown} -> {res}{wake} | holder {hold} waiters {nw}")
         return out
 
     def model_lock(self, case, variant):
-        return (f"lock {case['max_waiters']}", [" ".join(map(str, op)) for op in case["ops"]])
+        body = []
+        for kind, l, x in case["ops"]:
+            if kind in ("release", "relreq", "expire"):
+                x = self._tok(_val(x) if isinstance(x, str) else x)
+            body.append(f"{kind} {l} {x}")
+        # `get_fencing_token` tests the truth value of the holder: for the holder '' (requester 0) it reports None
+        return (f"lock {case['max_waiters']} {0 if case.get('falsy_names') else '-'}", body)
 
     def judge_lock(self, case, impl_out):
         body = []
@@ -1182,9 +1507,13 @@ class C12(core.Property):
                 t = t[2:]
             else:
                 t = t[1:]
+            while t and t[0] != "wake":
+                t = t[1:]
             while len(t) >= 3 and t[0] == "wake":
                 body.append(f"grant {op[1]} {t[1]} {t[2]}")
                 t = t[3:]
+                while t and t[0] != "wake":
+                    t = t[1:]
         return ("judge-lock", body)
 
     # ------------------------------------------------------------------ search helpers
@@ -1233,8 +1562,10 @@ class C12(core.Property):
                     del xs[i]
                 elif r < 0.6:
                     xs.insert(i, list(rng.choice(xs)))
-                else:
+                elif isinstance(xs[i][2], int):
                     xs[i][2] = max(0, xs[i][2] + rng.choice([-1, 1]))
+                else:
+                    xs[i][2] = rng.choice(["True", "1.0", "2.0", "None", "0", "False"])
             return c
         lat = c.get("lat") or [1_000_000]
         for _ in range(rng.randint(1, 3)):
@@ -1245,6 +1576,12 @@ class C12(core.Property):
             o = rng.choice(c["ops"])
             o["t"] = max(0, o["t"] + rng.choice([-1, 1, 5]) * 1_000_000)
             c["ops"].sort(key=lambda o: o["t"])
+        for key in ("vals", "cvals"):
+            # another object for one of the values: mostly a falsy or an equal-but-distinct one
+            if c.get(key) and rng.random() < 0.3:
+                pool = [e for e in (FALSY + EQUAL_DISTINCT if rng.random() < 0.7 else PALETTE) if e not in c[key]]
+                if pool:
+                    c[key][rng.randrange(len(c[key]))] = rng.choice(pool)
         if fam in ("mpaxos", "fpaxos"):
             self._mutate_log_case(c, rng)
         return c
@@ -1288,6 +1625,8 @@ class C12(core.Property):
             t = max(o["t"] for o in ops) + rng.choice([1, 10, 50]) * ms
             nd = rng.randrange(n)
             cmd = 1 + max([o.get("cmd", 0) for o in ops])
+            while "cvals" in c and len(c["cvals"]) < cmd:
+                c["cvals"].append(rng.choice([e for e in PALETTE if e not in c["cvals"]]))
             ops.append({"t": t, "op": "submit", "node": nd, "cmd": cmd})
             ops.append({"t": t + ms, "op": "start", "node": nd})
         ops.sort(key=lambda o: (o["t"], {"partition": 0, "heal": 2}.get(o["op"], 1)))
@@ -1308,6 +1647,12 @@ THEOREMS = [
     "HappyModel.C12.MP.slot_agreement_full_current_false",
     "HappyModel.C12.flexible_quorums_intersect",
     "HappyModel.C12.paxos_decision_has_phase2_quorum",
+    "HappyModel.C12.promise_reports_accepted",
+    "HappyModel.C12.promise_judge_silent",
+    "HappyModel.C12.promise_hiding_accepted_violates_spec",
+    "HappyModel.C12.propose_on_decided_resolves",
+    "HappyModel.C12.propose_call_judge_silent",
+    "HappyModel.C12.propose_call_pending_violates_spec",
     "HappyModel.C12.MP.commit_needs_phase2_quorum",
     "HappyModel.C12.MP.commit_judge_silent",
     "HappyModel.C12.MP.commit_on_phase1_quorum_violates_spec",
@@ -1322,6 +1667,9 @@ THEOREMS = [
     "HappyModel.C12.El.stale_heartbeat_does_not_change_leader",
     "HappyModel.C12.El.election_steps_judge_silent",
     "HappyModel.C12.El.stale_heartbeat_adopted_violates_spec",
+    "HappyModel.C12.El.ringNext_eq",
+    "HappyModel.C12.El.static_views_leader_is_highest",
+    "HappyModel.C12.El.election_one_leader_per_term_static",
     "HappyModel.C12.El.election_two_leaders_one_term",
     "HappyModel.C12.El.election_one_leader_per_term_current_false",
 ]
